@@ -264,6 +264,9 @@ where
     // with a brute-force solution.
     #[cfg(debug_assertions)]
     let mut brute_force_steps = (0..)
+        // The search space is cut at max_offset anyway; without this bound the
+        // scan never terminates if there are no (further) steps at all.
+        .take_while(|t_a| Offset::from(*t_a) <= max_offset)
         .filter(|t_a| {
             workload.iter().any(|cb|
                 // Negated conditions of Lemma 19.
